@@ -622,23 +622,33 @@ def simplify_boolean_expressions(source: str) -> str:
 
             continue
 
-        if isinstance(operator, ast.Eq):
-            yield node, ast.Constant(value=left == right, kind=None)
+        try:
+            if isinstance(operator, ast.Eq):
+                value = left == right
 
-        elif isinstance(operator, ast.NotEq):
-            yield node, ast.Constant(value=left != right, kind=None)
+            elif isinstance(operator, ast.NotEq):
+                value = left != right
 
-        elif isinstance(operator, ast.Gt):
-            yield node, ast.Constant(value=left > right, kind=None)
+            elif isinstance(operator, ast.Gt):
+                value = left > right
 
-        elif isinstance(operator, ast.Lt):
-            yield node, ast.Constant(value=left < right, kind=None)
+            elif isinstance(operator, ast.Lt):
+                value = left < right
 
-        elif isinstance(operator, ast.GtE):
-            yield node, ast.Constant(value=left >= right, kind=None)
+            elif isinstance(operator, ast.GtE):
+                value = left >= right
 
-        elif isinstance(operator, ast.LtE):
-            yield node, ast.Constant(value=left <= right, kind=None)
+            elif isinstance(operator, ast.LtE):
+                value = left <= right
+
+            else:
+                continue
+
+        except TypeError:
+            # Ill-typed comparison such as 1 < "a": it raises at runtime, so leave it alone.
+            continue
+
+        yield node, ast.Constant(value=value, kind=None)
 
 
 @processing.fix
